@@ -484,6 +484,36 @@ func run(c Case, r *pbt.R) {
 				inject(src, g)
 				process(si, st, "", st.Resp)
 				classes["garbage:"+st.Garb] = true
+			case "keyedbad":
+				// Application data sealed by the harness with the session's OWN keys (DTLS 1.2, key log) but without
+				// the observed endpoint's connection ID: as a plain application_data record (no ID at all), or as a
+				// tls12_cid record carrying another ID of the same length (consistently, also in the additional data).
+				// Only the missing / foreign ID tells it from a genuine record: it must not be accepted.
+				if !dec.Has12 || len(ownObs) == 0 {
+					continue
+				}
+				forgedSeq++
+				tag++
+				k := dec.SW
+				if mov.Name == "C" {
+					k = dec.CW
+				}
+				h := ref.Hdr12{Type: 23, Version: [2]byte{0xfe, 0xfd}, Epoch: 1, Seq: 1<<31 + forgedSeq}
+				pl := payload(tag)
+				if st.N%2 == 1 {
+					other := append([]byte(nil), ownObs...)
+					other[len(other)-1] ^= 0x5a
+					h.Type, h.CID = 25, other
+					pl = append(append([]byte(nil), pl...), 23)
+				}
+				d, err := ref.Seal12(k, h, pl, bytes.Repeat([]byte{9}, 16))
+				if err != nil {
+					continue
+				}
+				garbagePayloads[tag] = true
+				inject(src, d)
+				process(si, st, "", "drop")
+				classes["keyed-record-without-own-id:"+map[bool]string{true: "foreign-id", false: "no-id"}[st.N%2 == 1]] = true
 			case "pchallenge":
 				// An authentic path_challenge of the mover arriving from Src. The honest mover only
 				// challenges when IT sees a new address, so the harness - which knows the session keys from
@@ -736,11 +766,14 @@ func genCase(t *rapid.T) Case {
 	c.Obs = rapid.SampledFrom([]string{"S", "S", "C"}).Draw(t, "obs")
 	n := rapid.IntRange(1, 8).Draw(t, "nsteps")
 	for i := 0; i < n; i++ {
-		k := rapid.SampledFrom([]string{"fresh", "fresh", "fresh", "stale", "replay", "garbage", "owrite", "sleep", "release", "pchallenge"}).Draw(t, "kind")
+		k := rapid.SampledFrom([]string{"fresh", "fresh", "fresh", "stale", "replay", "garbage", "owrite", "sleep", "release", "pchallenge", "keyedbad"}).Draw(t, "kind")
 		st := Step{Kind: k}
 		switch k {
 		case "pchallenge":
 			st.Src = rapid.SampledFrom(srcs).Draw(t, "src")
+		case "keyedbad":
+			st.Src = rapid.SampledFrom(srcs).Draw(t, "src")
+			st.N = rapid.IntRange(0, 1).Draw(t, "n")
 		case "fresh", "stale", "replay":
 			st.Src = rapid.SampledFrom(srcs).Draw(t, "src")
 			st.Resp = rapid.SampledFrom(resps).Draw(t, "resp")
@@ -816,6 +849,14 @@ func gridCases() []Case {
 			for _, src := range []string{"X", "B", "H"} {
 				out = append(out, Case{Ver: 12, CIDC: lens[0], CIDS: lens[1], Obs: o, Note: "authentic-challenge",
 					Steps: []Step{{Kind: "pchallenge", Src: src}, {Kind: "pchallenge", Src: src}, {Kind: "owrite", N: 1}}})
+			}
+		}
+	}
+	for _, o := range []string{"S", "C"} {
+		for _, n := range []int{0, 1} {
+			for _, src := range []string{"H", "X"} {
+				out = append(out, Case{Ver: 12, CIDC: 4, CIDS: 6, Obs: o, Note: "keyed-record-without-own-id",
+					Steps: []Step{{Kind: "keyedbad", Src: src, N: n}, {Kind: "fresh", Src: "H", Resp: "timely"}}})
 			}
 		}
 	}
